@@ -27,6 +27,7 @@ For each mutation also write a demonstration: a small Go test file (package-exte
 
 Deliverables: for mutation k (k=1..N) create the directory /tmp/mut-{pid}-k/ containing
   patch.diff   - `git diff` of ONLY the library change (not the demo test), applicable with `git apply` from the repo root
-  demo_test.go (or demo/main.go) - the demonstration, plus a file DEMO.txt saying exactly where to place it in the repo and the command to run it
+  demo_test.go (or demo/main.go) - the demonstration, plus a file DEMO.txt saying exactly where to place it in the repo and the command to run it,
+                 and a machine-readable DEMO.json of the form {{"dest": "<path of the demo file relative to the repo root>", "cmd": "<shell command, run from the repo root, that exits 0 iff the demonstration passes>"}}
   NOTES.txt    - one paragraph: what the change is, why the existing tests miss it, what is needed for it to manifest, and the output you observed with and without the mutation.
 When finished, leave the worktree clean (git checkout -- . ; remove added files) and reply with a brief list of the mutations. Do not ask questions; make your own decisions.""")
